@@ -5,8 +5,8 @@ from either side, remove, find, index, size, each, alias; keys of every hashable
 of every kind including dictionaries) are run as Klong source text, step by step, on the
 REAL KlongInterpreter and on the Lean machine `Klong.C10` (driver kd_c10).  After every step
 the result, the variable bindings and the contents of EVERY dictionary created so far are
-compared, and so are Klong-level probes (`#d`, `{x}'d`, `d?k` for every key of the pool
-through every variable).
+compared, and so are Klong-level probes (`#d`, `{x}'d`, and `d?k`, `d@k`, `d@[k]` for every key
+of the pool through every variable).
 
 Oracle (needs no Lean model): a heap of plain Python dicts keyed by key identity, driven by
 the same history; it decides what the property demands for every step and every probe.
@@ -53,6 +53,9 @@ THEOREMS = [
     "Klong.C10.literal_is_fresh",
     "Klong.C10.toplevel_literal_is_fresh",
     "Klong.C10.fresh_literals_independent",
+    "Klong.C10.failed_join_changes_nothing",
+    "Klong.C10.set_self",
+    "Klong.C10.each_selfupdate_is_identity",
     "Klong.C10.keyEq_is_key_identity",
     "Klong.C10.pinned_char_symbol_order_dependent",
     "Klong.C10.pinned_keyeq_is_no_key_identity",
@@ -85,6 +88,12 @@ KEY_GROUPS = [     # keys that Python compares equal sit in one group together w
     [["i", 100000], ["r", 100000.5], ["r", 99999.5], ["r", 100000.0]],
 ]
 NEAR_TWIN_GROUPS = KEY_GROUPS[-5:]
+# negative integer keys next to the non-negative ones a position-style reading would confuse them with
+KEY_GROUPS += [
+    [["i", -1], ["i", 0], ["i", 1], ["i", -2], ["i", -5]],
+    [["i", -1], ["i", -2], ["i", 2], ["i", 3], ["r", -1.0]],
+]
+NEGATIVE_GROUPS = KEY_GROUPS[-2:]
 
 VALUES = [
     ["i", 0], ["i", -3], ["i", 17], ["i", 1], ["r", 2.5], ["r", -0.5], ["r", 1e-07], ["r", 1e100],
@@ -208,6 +217,14 @@ def klong_text(op):
         return f"#{op['d']}"
     if o == "each":
         return "{x}'" + op["d"]
+    if o == "eachupd":
+        # Each with a function that overwrites the visited entry in place (same key, same value)
+        return "{" + op["d"] + ",x;x}'" + op["d"]
+    if o == "joinbad":
+        # a malformed add: a one-element tuple (raises; must leave the dictionary as it was)
+        if op.get("form") == "cat":
+            return f"{op['d']},{src(op['k'], False)},[]"
+        return f"{op['d']},[{src(op['k'], True)}]"
     if o == "alias":
         return f"{op['x']}::{op['d']}"
     raise ValueError(o)
@@ -231,6 +248,10 @@ def wire_line(op):
         return f"indexmany d={op['d']} ks={','.join(raw_key_tok(k) for k in op['ks'])}"
     if o in ("size", "each"):
         return f"{o} d={op['d']}"
+    if o == "eachupd":
+        return f"each d={op['d']}"      # the self-overwrites are the identity (each_selfupdate_is_identity)
+    if o == "joinbad":
+        return f"joinbad d={op['d']} k={raw_key_tok(op['k'])}"
     if o == "alias":
         return f"alias x={op['x']} d={op['d']}"
     raise ValueError(o)
@@ -263,6 +284,16 @@ class DictStore:
 
 
 UNSPEC = object()      # the property does not say what this step returns
+ABSENT = "<absent: KeyError or :undefined>"   # a lookup of a key the map does not hold: any way of
+#                                               saying so is fine, a VALUE is not
+
+
+def agrees(want, got):
+    if want is UNSPEC:
+        return True
+    if want is ABSENT:
+        return got in ("KeyError", "U")
+    return want == got
 
 
 class Machine:
@@ -330,25 +361,30 @@ class Machine:
         if o == "index":
             # `d@k` on a dictionary is not defined by the reference: only "an integer key that is
             # present yields its value" is taken from the map reading; the rest is adopted
-            if op["k"][0] == "i" and d.get(op["k"]) is not None:
-                self._bind(op, d.get(op["k"]))
-                return d.get(op["k"])
+            # (an integer key that is absent must not yield a value)
+            if op["k"][0] == "i":
+                if d.get(op["k"]) is not None:
+                    self._bind(op, d.get(op["k"]))
+                    return d.get(op["k"])
+                return ABSENT
             return UNSPEC
         if o == "indexmany":
             vs = [d.get(k) for k in op["ks"]]
             if all(v is not None for v in vs):
                 return "L(" + ";".join(vs) + ")"
-            return UNSPEC
+            return ABSENT
+        if o == "joinbad":
+            return UNSPEC          # whatever it raises / returns, no dictionary may change
         if o == "size":
             return f"n{len(d.items())}"
-        if o == "each":
+        if o in ("each", "eachupd"):
             it = d.items()
             return f"P{len(it)}:" + ";".join(sorted(f"{k}~{v}" for k, v in it))
         raise ValueError(o)
 
     def adopt(self, op, obs):
         """an unspecified step bound a variable: take over what the implementation bound"""
-        if op.get("into") and obs is not None and not obs.startswith("raises") and obs != "KeyError":
+        if op.get("into") and obs is not None and not obs.startswith("raises") and obs not in ("KeyError", "IndexError"):
             self.vars[op["into"]] = obs
 
     def digest(self):
@@ -364,6 +400,12 @@ class Machine:
             it = d.items()
             return f"P{len(it)}:" + ";".join(sorted(f"{k}~{v}" for k, v in it))
         v = d.get(key)
+        if what == "index":       # d@k
+            if key[0] != "i":
+                return UNSPEC
+            return ABSENT if v is None else v
+        if what == "index1":      # d@[k]
+            return ABSENT if v is None else f"L({v})"
         return "U" if v is None else v
 
 
@@ -457,11 +499,13 @@ class Real:
             res = self.ev(text)
         except KeyError:
             return "KeyError"
+        except IndexError:
+            return "IndexError"
         except Exception as e:  # noqa
             return f"raises:{type(e).__name__}"
         if op["op"] in ("lit", "call"):
             self.register(res)
-        if op["op"] == "each":
+        if op["op"] in ("each", "eachupd"):
             return self.canon_pairs(res)
         if op["op"] == "size":
             return self._size(res)
@@ -477,7 +521,13 @@ class Real:
                 return self._size(self.ev(f"#{name}"))
             if what == "each":
                 return self.canon_pairs(self.ev("{x}'" + name))
+            if what == "index":
+                return self.canon(self.ev(f"{name}@{src(key, False)}"))
+            if what == "index1":
+                return self.canon(self.ev(f"{name}@[{src(key, True)}]"))
             return self.canon(self.ev(f"{name}?{src(key, False)}"))
+        except KeyError:
+            return "KeyError"
         except Exception as e:  # noqa
             return f"raises:{type(e).__name__}"
 
@@ -486,8 +536,11 @@ class Real:
 
 def make_pool(rng):
     groups = rng.sample(KEY_GROUPS, 2)
-    if rng.random() < 0.25:
+    u = rng.random()
+    if u < 0.25:
         groups[0] = rng.choice(NEAR_TWIN_GROUPS)
+    elif u < 0.45:
+        groups[0] = rng.choice(NEGATIVE_GROUPS)
     pool = []
     for g in groups:
         pool += rng.sample(g, min(len(g), 3))
@@ -550,10 +603,14 @@ def gen_op(rng, st, pool, done=()):
         return dict(op="index", d=d, k=k, into=into)
     if r < 0.85:
         return dict(op="indexmany", d=d, ks=[rng.choice(pool) for _ in range(rng.randrange(0, 4))])
-    if r < 0.90:
+    if r < 0.89:
         return dict(op="size", d=d)
-    if r < 0.95:
+    if r < 0.92:
         return dict(op="each", d=d)
+    if r < 0.94:
+        return dict(op="eachupd", d=d)
+    if r < 0.97:
+        return dict(op="joinbad", d=d, k=k, form=rng.choice(["lit", "lit", "cat"]))
     return dict(op="alias", x=rng.choice(VARS), d=d)
 
 
@@ -681,15 +738,19 @@ def run_history(ctx, drv, label, ops=None, pool=None, length=0, classify=True, r
             probes.append(((name, "size", None), real.probe(name, "size")))
             probes.append(((name, "each", None), real.probe(name, "each")))
             for k in pool:
-                probes.append(((name, "find", k), real.probe(name, "find", k)))
+                # every key through every lookup entry point: d?k, d@k, d@[k]
+                for what in ("find", "index", "index1"):
+                    probes.append(((name, what, k), real.probe(name, what, k)))
         ctx.bump("op:" + op["op"])
         for k in keys_of(op):
             ctx.bump("keykind:" + k[0])
 
         # ---- the property's oracle (no Lean model involved)
         bad = False
-        if exp is not UNSPEC and exp != obs:
-            if obs.startswith("raises"):
+        if not agrees(exp, obs):
+            if exp is ABSENT:
+                what = "missing-key-yields-a-value"
+            elif obs.startswith("raises"):
                 what = obs.replace("raises:", "raises-")
             elif op["op"] in ("lit", "call"):
                 what = "literal-not-fresh"
@@ -699,7 +760,7 @@ def run_history(ctx, drv, label, ops=None, pool=None, length=0, classify=True, r
                 what = "missing-key-not-undefined" if exp == "U" else "wrong-value"
             elif op["op"] == "size":
                 what = "not-number-of-distinct-keys"
-            elif op["op"] == "each":
+            elif op["op"] in ("each", "eachupd"):
                 what = "not-every-pair-once"
             else:
                 what = "wrong-value"
@@ -712,10 +773,13 @@ def run_history(ctx, drv, label, ops=None, pool=None, length=0, classify=True, r
         else:
             for (name, what, key), got in probes:
                 want = oracle.probe(name, what, key)
-                if want != got:
+                if not agrees(want, got):
                     cls = {"size": "size-not-number-of-distinct-keys", "each": "each-not-every-pair-once",
-                           "find": "lookup-after-history"}[what]
-                    text = {"size": f"#{name}", "each": "{x}'" + name}.get(what) or f"{name}?{src(key, False)}"
+                           "find": "lookup-after-history", "index": "index-after-history",
+                           "index1": "index-list-after-history"}[what]
+                    text = {"size": f"#{name}", "each": "{x}'" + name}.get(what) or {
+                        "find": f"{name}?{src(key, False)}", "index": f"{name}@{src(key, False)}",
+                        "index1": f"{name}@[{src(key, True)}]"}[what]
                     fail(_fail_key(op, "probe:" + cls), want, got, f"after step {i}: {klong_text(op)}; probe {text}")
                     bad = True
                     break
@@ -732,8 +796,10 @@ def run_history(ctx, drv, label, ops=None, pool=None, length=0, classify=True, r
                 return
             lines = []
             for (name, what, key), got in probes:
-                if what == "find":
-                    lines.append(f"find d={name} k={raw_key_tok(key)} into=")
+                if what in ("find", "index"):
+                    lines.append(f"{what} d={name} k={raw_key_tok(key)} into=")
+                elif what == "index1":
+                    lines.append(f"indexmany d={name} ks={raw_key_tok(key)}")
                 else:
                     lines.append(f"{what} d={name}")
             if lines:
@@ -791,6 +857,10 @@ def lean_op(op):
         return f".indexMany {_lq(op['d'])} [{', '.join(lean_key(k) for k in op['ks'])}]"
     if o in ("size", "each"):
         return f".{o} {_lq(op['d'])}"
+    if o == "eachupd":
+        return f".each {_lq(op['d'])}"
+    if o == "joinbad":
+        return f".joinBad {_lq(op['d'])} {lean_key(op['k'])}"
     if o == "alias":
         return f".alias {_lq(op['x'])} {_lq(op['d'])}"
     raise ValueError(o)
@@ -824,11 +894,13 @@ def lean_out(op, tok):
     o = op["op"]
     if tok == "KeyError":
         return ".keyError"
+    if tok == "IndexError":
+        return ".indexError"
     if o == "deffn":
         return ".fn" if tok == "fn" else None
     if o == "size":
         return f".num {tok[1:]}" if tok.startswith("n") else None
-    if o == "each":
+    if o in ("each", "eachupd"):
         return f".num {tok[1:].split(':')[0]}" if tok.startswith("P") else None
     if o == "indexmany":
         if not (tok.startswith("L(") and tok.endswith(")")):
@@ -927,6 +999,10 @@ BUILTIN_HISTORIES = [
      dict(op="remove", d="da", k=["r", 0.3], into=None),
      dict(op="find", d="da", k=["r", 0.3], into=None),
      dict(op="each", d="da")],
+    # round-3 additions (negative integer keys / failed adds / Each over a dictionary its function updates)
+    [{'op': 'lit', 'x': 'da', 'ps': []}, {'op': 'join', 'side': 'L', 'form': 'lit', 'd': 'da', 'k': ['i', -1], 'v': ['i', 10], 'into': None}, {'op': 'join', 'side': 'L', 'form': 'lit', 'd': 'da', 'k': ['i', 1], 'v': ['i', 20], 'into': None}, {'op': 'index', 'd': 'da', 'k': ['i', -1], 'into': None}, {'op': 'find', 'd': 'da', 'k': ['i', -1], 'into': None}, {'op': 'lit', 'x': 'db', 'ps': [[['i', 0], ['i', 5]], [['i', -1], ['i', 10]]]}, {'op': 'index', 'd': 'db', 'k': ['i', -1], 'into': None}, {'op': 'alias', 'x': 'dc', 'd': 'db'}, {'op': 'remove', 'd': 'dc', 'k': ['i', -1], 'into': None}, {'op': 'index', 'd': 'db', 'k': ['i', -1], 'into': None}, {'op': 'deffn', 'f': 'f1', 'form': 'plain', 'ps': [[['i', -2], ['s', 'm2']], [['i', -5], ['s', 'm5']], [['i', 0], ['s', 'z']]]}, {'op': 'call', 'x': 'dd', 'f': 'f1'}, {'op': 'index', 'd': 'dd', 'k': ['i', -2], 'into': None}, {'op': 'indexmany', 'd': 'dd', 'ks': [['i', -5], ['i', -2]]}],
+    [{'op': 'lit', 'x': 'da', 'ps': [[['i', 1], ['i', 10]], [['s', 'a'], ['i', 20]], [['r', 2.5], ['i', 30]]]}, {'op': 'alias', 'x': 'db', 'd': 'da'}, {'op': 'joinbad', 'd': 'da', 'k': ['i', 1], 'form': 'lit'}, {'op': 'size', 'd': 'da'}, {'op': 'joinbad', 'd': 'db', 'k': ['c', 'a'], 'form': 'lit'}, {'op': 'joinbad', 'd': 'da', 'k': ['r', 2.5], 'form': 'cat'}, {'op': 'joinbad', 'd': 'da', 'k': ['i', 7], 'form': 'cat'}, {'op': 'find', 'd': 'db', 'k': ['i', 1], 'into': None}, {'op': 'each', 'd': 'db'}],
+    [{'op': 'lit', 'x': 'da', 'ps': [[['i', 0], ['i', 0]]]}, {'op': 'eachupd', 'd': 'da'}, {'op': 'size', 'd': 'da'}, {'op': 'lit', 'x': 'da', 'ps': [[['i', 0], ['i', 0]], [['i', 1], ['i', 10]]]}, {'op': 'eachupd', 'd': 'da'}, {'op': 'size', 'd': 'da'}, {'op': 'lit', 'x': 'da', 'ps': [[['i', 0], ['i', 0]], [['i', 1], ['i', 10]], [['i', 2], ['i', 20]]]}, {'op': 'eachupd', 'd': 'da'}, {'op': 'size', 'd': 'da'}, {'op': 'lit', 'x': 'da', 'ps': [[['i', 0], ['i', 0]], [['i', 1], ['i', 10]], [['i', 2], ['i', 20]], [['i', 3], ['i', 30]]]}, {'op': 'eachupd', 'd': 'da'}, {'op': 'size', 'd': 'da'}, {'op': 'lit', 'x': 'da', 'ps': [[['i', 0], ['i', 0]], [['i', 1], ['i', 10]], [['i', 2], ['i', 20]], [['i', 3], ['i', 30]], [['i', 4], ['i', 40]]]}, {'op': 'eachupd', 'd': 'da'}, {'op': 'size', 'd': 'da'}, {'op': 'lit', 'x': 'da', 'ps': [[['i', 0], ['i', 0]], [['i', 1], ['i', 10]], [['i', 2], ['i', 20]], [['i', 3], ['i', 30]], [['i', 4], ['i', 40]], [['i', 5], ['i', 50]]]}, {'op': 'eachupd', 'd': 'da'}, {'op': 'size', 'd': 'da'}, {'op': 'lit', 'x': 'da', 'ps': [[['i', 0], ['i', 0]], [['i', 1], ['i', 10]], [['i', 2], ['i', 20]], [['i', 3], ['i', 30]], [['i', 4], ['i', 40]], [['i', 5], ['i', 50]], [['i', 6], ['i', 60]]]}, {'op': 'eachupd', 'd': 'da'}, {'op': 'size', 'd': 'da'}, {'op': 'lit', 'x': 'da', 'ps': [[['i', 0], ['i', 0]], [['i', 1], ['i', 10]], [['i', 2], ['i', 20]], [['i', 3], ['i', 30]], [['i', 4], ['i', 40]], [['i', 5], ['i', 50]], [['i', 6], ['i', 60]], [['i', 7], ['i', 70]]]}, {'op': 'eachupd', 'd': 'da'}, {'op': 'size', 'd': 'da'}, {'op': 'lit', 'x': 'da', 'ps': [[['i', 0], ['i', 0]], [['i', 1], ['i', 10]], [['i', 2], ['i', 20]], [['i', 3], ['i', 30]], [['i', 4], ['i', 40]], [['i', 5], ['i', 50]], [['i', 6], ['i', 60]], [['i', 7], ['i', 70]], [['i', 8], ['i', 80]], [['i', 9], ['i', 90]], [['i', 10], ['i', 100]], [['i', 11], ['i', 110]], [['i', 12], ['i', 120]]]}, {'op': 'eachupd', 'd': 'da'}, {'op': 'size', 'd': 'da'}, {'op': 'lit', 'x': 'da', 'ps': [[['i', 0], ['i', 0]], [['i', 1], ['i', 10]], [['i', 2], ['i', 20]], [['i', 3], ['i', 30]], [['i', 4], ['i', 40]], [['i', 5], ['i', 50]], [['i', 6], ['i', 60]], [['i', 7], ['i', 70]], [['i', 8], ['i', 80]], [['i', 9], ['i', 90]], [['i', 10], ['i', 100]], [['i', 11], ['i', 110]], [['i', 12], ['i', 120]], [['i', 13], ['i', 130]], [['i', 14], ['i', 140]], [['i', 15], ['i', 150]], [['i', 16], ['i', 160]], [['i', 17], ['i', 170]], [['i', 18], ['i', 180]], [['i', 19], ['i', 190]], [['i', 20], ['i', 200]]]}, {'op': 'eachupd', 'd': 'da'}, {'op': 'size', 'd': 'da'}],
     # a dictionary stored as a value, found again and updated through that path
     [dict(op="lit", x="da", ps=[]),
      dict(op="lit", x="db", ps=[[["i", 0], ["c", "x"]]]),
